@@ -129,44 +129,91 @@ def run(ctx):
         why5 = G.show(body_copy[0][2])[:400]
         # loop containing cb
         loops = [(t, h) for (t, h) in b.back_edges() if cb in b.loop_blocks(h, t)]
-        if len(loops) == 1 and dst[0] == "ptrop" and dst[1] == "add" and dst[2] == HEAP and dst[4] == 1:
+        phis = [x for x in _subterms(dst) if isinstance(x, tuple) and len(x) > 3 and x[0] == "opq" and x[1] == "phi"]
+        if len(loops) == 1 and len(set(phis)) == 1:
             tail, head = loops[0]
             lb = b.loop_blocks(head, tail)
-            W = dst[3]
-            if W[0] == "opq" and W[1] == "phi":
-                L = W[2]
-                defs = A.tb.defs.get(L, [])
-                init = [d for d in defs if d[1] not in lb]
-                upd = [d for d in defs if d[1] in lb]
-                if len(init) == 1 and len(upd) == 1 and upd[0][0] == "stmt":
-                    iv = A.tb.call_value(b.term(init[0][1]), init[0][1]) if init[0][0] == "call" else \
-                        A.tb.rvalue(b.stmts(init[0][1])[init[0][2]]["rv"], (init[0][1], init[0][2]))
-                    st = b.stmts(upd[0][1])[upd[0][2]]
-                    uv = N(A.tb.rvalue(st["rv"], (upd[0][1], upd[0][2]), st))
-                    item_len = cnt
-                    init_ok = N(iv) == HS and b.dominates(init[0][1], head)
-                    upd_ok = uv == ("bin", "Add", W, item_len)
-                    # source: (as_ptr(item), len(item)) of the same item, item = payload of next() over arg2
-                    src_ok = src[0] == "asptr" and item_len == ("len", src[1])
-                    item = src[1]
-                    it_ok = False
-                    x = item
-                    if x[0] == "deref":
-                        x = x[1]
-                    if x[0] == "fld" and x[1][0] == "dc" and x[1][1][0] == "call" and "Iterator>::next" in str(x[1][1][1]):
-                        itr = x[1][1][2][0]
-                        itr = itr[1] if itr[0] == "ref" else itr
-                        # forward slice iteration over the argument: into_iter(arg2) | arg2.iter() | into_iter(arg2.iter())
-                        while itr[0] == "call" and "IntoIterator" in str(itr[1]) and len(itr[2]) == 1:
-                            itr = itr[2][0]
-                        if itr[0] == "call" and cn(itr[1]) == "core::slice::iter" and len(itr[2]) == 1:
-                            itr = itr[2][0]
-                        it_ok = itr == arg(2) and "core::slice::iter::Iter<" in str(x[1][1][1])
-                    # exactly once per iteration: copy block and update block dominate the back-edge tail, update after copy
-                    once = b.dominates(cb, tail) and b.dominates(upd[0][1], tail) and b.dominates(cb, upd[0][1])
-                    inner = [(t2, h2) for (t2, h2) in b.back_edges() if (t2, h2) != (tail, head) and h2 in lb]
-                    g5 = init_ok and upd_ok and src_ok and it_ok and once and not inner
-                    why5 = "init_ok=%s upd_ok=%s src_ok=%s iter_ok=%s once=%s inner_loops=%s; update=%s" % (init_ok, upd_ok, src_ok, it_ok, once, inner, G.show(uv)[:120])
+            W = phis[0]
+            L = W[2]
+            defs = A.tb.defs.get(L, [])
+            init = [d for d in defs if d[1] not in lb]
+            upd = [d for d in defs if d[1] in lb]
+            pn = G.ptr_norm(dst)
+            if len(init) == 1 and len(upd) == 1 and upd[0][0] == "stmt" and pn is not None:
+                iv = A.tb.call_value(b.term(init[0][1]), init[0][1]) if init[0][0] == "call" else \
+                    A.tb.rvalue(b.stmts(init[0][1])[init[0][2]]["rv"], (init[0][1], init[0][2]))
+                iv = N(iv)
+                st = b.stmts(upd[0][1])[upd[0][2]]
+                uv = N(A.tb.rvalue(st["rv"], (upd[0][1], upd[0][2]), st))
+                item_len = cnt
+                base, off = pn
+                init_ok = upd_ok = False
+                form = "?"
+                try:
+                    if base == W:
+                        # the destination pointer itself is carried: starts at heap_ptr + size_of Header, advances by len
+                        form = "running pointer"
+                        pi, pu = G.ptr_norm(iv), G.ptr_norm(uv)
+                        init_ok = off.key() == G.Lin(0).key() and pi is not None and pi[0] == HEAP and pi[1].key() == G.lin(HS).key() and b.dominates(init[0][1], head)
+                        upd_ok = pu is not None and pu[0] == W and pu[1].key() == G.lin(item_len).key()
+                    elif base == HEAP:
+                        # heap_ptr + (constant + carried offset): position starts at size_of Header, advances by len
+                        form = "running offset"
+                        k = off.add(G.Lin(0, {W: 1}), -1)
+                        init_ok = k.add(G.lin(iv)).key() == G.lin(HS).key() and b.dominates(init[0][1], head) and off.m.get(W) == 1
+                        upd_ok = G.lin(uv).key() == G.Lin(0, {W: 1}).add(G.lin(item_len)).key()
+                except Exception as e:          # non-linear shapes
+                    form = "unrecognised (%s)" % e
+                # source: (as_ptr(item), len(item)) of the same item, item = payload of next() over arg2
+                src_ok = src[0] == "asptr" and item_len == ("len", src[1])
+                item = src[1]
+                it_ok = False
+                x = item
+                if x[0] == "deref":
+                    x = x[1]
+                if x[0] == "fld" and x[1][0] == "dc" and x[1][1][0] == "call" and "Iterator>::next" in str(x[1][1][1]):
+                    itr = x[1][1][2][0]
+                    itr = itr[1] if itr[0] == "ref" else itr
+                    # forward slice iteration over the argument: into_iter(arg2) | arg2.iter() | into_iter(arg2.iter())
+                    while itr[0] == "call" and "IntoIterator" in str(itr[1]) and len(itr[2]) == 1:
+                        itr = itr[2][0]
+                    if itr[0] == "call" and cn(itr[1]) == "core::slice::iter" and len(itr[2]) == 1:
+                        itr = itr[2][0]
+                    it_ok = itr == arg(2) and "core::slice::iter::Iter<" in str(x[1][1][1])
+                # exactly once per iteration: copy block and update block dominate the back-edge tail, update after copy
+                once = b.dominates(cb, tail) and b.dominates(upd[0][1], tail) and b.dominates(cb, upd[0][1])
+                inner = [(t2, h2) for (t2, h2) in b.back_edges() if (t2, h2) != (tail, head) and h2 in lb]
+                g5 = init_ok and upd_ok and src_ok and it_ok and once and not inner
+                why5 = "%s: init_ok=%s upd_ok=%s src_ok=%s iter_ok=%s once=%s inner_loops=%s; update=%s" % (form, init_ok, upd_ok, src_ok, it_ok, once, inner, G.show(uv)[:120])
+    if not body_copy:
+        # slices.iter().fold(dst0, |dst, s| { copy(s.as_ptr(), dst, s.len()); dst.add(s.len()) }): the same running pointer,
+        # the loop being Iterator::fold's (in order, once per element: std contract)
+        folds = callv(A, ["core::iter::traits::iterator::Iterator::fold", "as core::iter::traits::iterator::Iterator>::fold"])
+        if len(folds) == 1:
+            fv = N(folds[0][2])
+            why5 = "fold form: %s" % G.show(fv)[:300]
+            if fv[0] == "call" and len(fv[2]) == 3:
+                itr, init0, clo = fv[2]
+                while itr[0] == "call" and "IntoIterator" in str(itr[1]) and len(itr[2]) == 1:
+                    itr = itr[2][0]
+                it_ok = itr[0] == "call" and cn(itr[1]) == "core::slice::iter" and itr[2] == (arg(2),)
+                pi = G.ptr_norm(init0)
+                init_ok = pi is not None and pi[0] == HEAP and pi[1].key() == G.lin(HS).key()
+                cf = [c for k, c in F.fns.items() if clo[0] == "aggr" and clo[1][0] == "closure" and c.get("path") == clo[1][1]]
+                step_ok = False
+                if len(cf) == 1:
+                    C = an.of(F, cf[0])
+                    cc = callv(C, ["core::ptr::copy_nonoverlapping"])
+                    rt_c, _ = C.ret()
+                    if len(cc) == 1 and rt_c is not None and not C.body.back_edges():
+                        csrc, cdst, ccnt = N(cc[0][2])[2]
+                        item = csrc[1] if csrc[0] == "asptr" else None
+                        pr = G.ptr_norm(N(rt_c))
+                        step_ok = cdst == arg(2) and item is not None and ccnt == ("len", item) and item in (("deref", arg(3)), ("deref", ("deref", arg(3))), arg(3)) and \
+                            pr is not None and pr[0] == arg(2) and pr[1].key() == G.lin(ccnt).key() and \
+                            all(C.body.dominates(cc[0][0], r) for r in C.body.return_blocks)
+                g5 = it_ok and init_ok and step_ok
+                why5 = "fold form: iter_ok=%s init_ok=%s step_ok=%s" % (it_ok, init_ok, step_ok)
     ctx.check(g5, "N5", "body-copies",
               "each slice is copied to heap_ptr + write_offset with write_offset starting at size_of::<Header>() and advancing by the slice's length "
               "exactly once per iteration, source = the slice's own (ptr, len), slices taken in order from the argument",
